@@ -508,7 +508,8 @@ func (c *Cluster) Merge(regionID1, regionID2 uint64) {
 	c.Lock()
 	defer c.Unlock()
 
-	c.regions[regionID1].merge(c.regions[regionID2].Meta.GetEndKey())
+	source := c.regions[regionID2].Meta
+	c.regions[regionID1].merge(source.GetEndKey(), source.GetRegionEpoch().GetVersion())
 	delete(c.regions, regionID2)
 }
 
@@ -727,14 +728,24 @@ func (r *Region) split(newRegionID uint64, key MvccKey, peerIDs []uint64, leader
 	for _, peer := range r.Meta.Peers {
 		storeIDs = append(storeIDs, peer.GetStoreId())
 	}
-	region := newRegion(newRegionID, storeIDs, peerIDs, leaderPeerID)
+	// Like TiKV, both halves of a split get the parent's epoch with the version increased by one.
+	region := newRegion(newRegionID, storeIDs, peerIDs, leaderPeerID,
+		r.Meta.GetRegionEpoch().GetConfVer(), r.Meta.GetRegionEpoch().GetVersion())
 	region.updateKeyRange(key, r.Meta.EndKey)
 	r.updateKeyRange(r.Meta.StartKey, key)
 	return region
 }
 
-func (r *Region) merge(endKey MvccKey) {
+// merge extends the region to endKey. Like TiKV, the merged region's version is
+// max(source version, target version) + 1, so that it is newer than both.
+func (r *Region) merge(endKey MvccKey, sourceVersion uint64) {
 	r.Meta.EndKey = endKey
+	if sourceVersion > r.Meta.GetRegionEpoch().GetVersion() {
+		r.Meta.RegionEpoch = &metapb.RegionEpoch{
+			ConfVer: r.Meta.GetRegionEpoch().GetConfVer(),
+			Version: sourceVersion,
+		}
+	}
 	r.incVersion()
 }
 
